@@ -58,6 +58,7 @@ package silence
 //@   after call errors.Is assume res0 == isEOF(arg0)
 //@   ensures [only-a-clean-end-of-input-completes-the-state] result1 == nil ==> called("protodelim.UnmarshalFrom") && isEOF(ret("protodelim.UnmarshalFrom"))
 //@   ensures [any-other-read-error-is-reported] called("protodelim.UnmarshalFrom") && ret("protodelim.UnmarshalFrom") != nil && !isEOF(ret("protodelim.UnmarshalFrom")) ==> result1 != nil
+//@   ensures [only-a-read-error-or-a-record-without-a-silence-fails-the-decode] result1 != nil ==> result1 == ErrInvalidState || (called("protodelim.UnmarshalFrom") && result1 == ret("protodelim.UnmarshalFrom") && !isEOF(result1))
 //@   at call postprocessUnmarshalledSilence assert [legacy-form-upgraded-before-filing] arg0 != nil
 //@   after call protodelim.UnmarshalFrom assume s.Silence != nil ==> (s.Silence.MatcherSets == nil || fresh(s.Silence.MatcherSets)) && (s.Silence.Matchers == nil || fresh(s.Silence.Matchers))
 //@   ensures [a-decoded-silence-is-filed] result1 == nil && countnil0("protodelim.UnmarshalFrom") > 0 ==> len(result0) > 0
@@ -545,6 +546,7 @@ package silence
 //@   ensures [asked-in-order] count("dynamic:elem:field:filters") <= len(deref(q).filters) && counttrue0("dynamic:elem:field:filters") <= count("dynamic:elem:field:filters")
 //@   ensures [error-propagates] called("dynamic:elem:field:filters") && ret1("dynamic:elem:field:filters") != nil ==> result1 == ret1("dynamic:elem:field:filters") && result0 == res
 //@   ensures [appended-is-a-copy] len(result0) == len(res) + 1 ==> result0[len(res)] != nil && result0[len(res)].Id == sil.Id && result0[len(res)].StartsAt == sil.StartsAt && result0[len(res)].EndsAt == sil.EndsAt
+//@   ensures [the-answer-is-a-copy-of-its-own-never-the-stored-silence] len(result0) == len(res) + 1 ==> result0[len(res)] != sil && fresh(result0[len(res)])
 //@   ensures [at-most-one-more] (result0 == res || len(result0) == len(res) + 1) && (result1 != nil ==> result0 == res)
 //@   ensures [earlier-results-kept] forall i int :: 0 <= i && i < len(res) ==> result0[i] == old(res[i])
 //@   ensures [same-or-new-array] base(result0) == base(res) || fresh(result0)
